@@ -417,6 +417,10 @@ class PartialProfile(Profile):
                             edges += cfg.out_edges(n, ("T",))
                         elif isinstance(op, ast.NotEq) and k >= need:
                             edges += cfg.out_edges(n, ("F",))
+                        elif isinstance(op, ast.Eq) and k == 0 and need <= 1:
+                            edges += cfg.out_edges(n, ("F",))  # not empty: at least one
+                        elif isinstance(op, ast.NotEq) and k == 0 and need <= 1:
+                            edges += cfg.out_edges(n, ("T",))
         return edges
 
     def _key_guards(self, ctx, cfg: CFG, base: str, key) -> list:
